@@ -25,6 +25,7 @@ from gen import grammars as G
 from gen import trees as T
 
 LEVEL = "proof"
+REPLAY_BY_SEED = True  # a replay file names (seed, tier); ./check --replay re-runs exactly that run
 
 RULE = (
     "cases = histories (<= 10 ops quick / <= 25 thorough) over {k_paths(k in 1..3) and concrete k_paths on a random subtree, "
@@ -83,6 +84,14 @@ def norm(x):
     return json.loads(json.dumps(x, default=str))
 
 
+def outcome(fn):
+    """('ok', value) | ('raises', exception class name)"""
+    try:
+        return ("ok", fn())
+    except Exception as e:  # noqa
+        return ("raises", type(e).__name__)
+
+
 def history(ctx: Ctx, g, t0, n_ops: int):
     import grammar_graph.gg as gg
 
@@ -105,7 +114,18 @@ def history(ctx: Ctx, g, t0, n_ops: int):
                 k = rng.randint(1, 3)
                 conc = rng.random() < 0.4
                 hist.append(["concrete_k_paths" if conc else "k_paths", list(p), k])
-                sub.k_paths(graph, k, include_potential_paths=not conc)
+                live = outcome(lambda: sub.k_paths(graph, k, include_potential_paths=not conc))
+                if live[0] == "raises":
+                    # "serializing never changes the behaviour of the original": the reference is a twin
+                    # that was never serialized.  grammar_graph rejects some trees of ambiguous-looking
+                    # alternatives whatever their history; that is not a serialization matter.
+                    twin = outcome(lambda: T.to_isla(t0).get_subtree(tuple(p)).k_paths(graph, k, include_potential_paths=not conc))
+                    if twin != live:
+                        fail(f"op-raises:{hist[-1][0]}:{live[1]}", f"{hist[-1][0]} raised {live[1]} after history {hist[:-1]}, but not on a never-serialized twin")
+                        return serial_after_cache
+                    ctx.count("op", "k_paths-raises-on-fresh-twin-too:" + live[1])
+                    hist.pop()
+                    continue
                 cache_done = True
             elif r < 0.5:
                 what = rng.choice(["str", "len", "hash", "structural_hash", "is_open"])
@@ -137,8 +157,13 @@ def history(ctx: Ctx, g, t0, n_ops: int):
                 ctx.evaluations += 1
                 if isinstance(ans, Atom) or norm(ans[1]) != norm(copy_state):
                     ctx.violation("obs:pickle", "unpickled tree's private state differs from the model's decode(encode(t))", {"history": hist, "tree": t0, "isla": norm(copy_state), "model": norm(ans), "broken": "correspondence c17/roundtrip"}, found_input=False)
-                # the copy must be usable as well
-                copy.k_paths(graph, 2)
+                # the copy must be as usable as a tree that was never serialized
+                a = outcome(lambda: copy.k_paths(graph, 2))
+                b = outcome(lambda: T.to_isla(t0).k_paths(graph, 2))
+                if a != b:
+                    fail("pickle-copy-behaviour", f"k_paths on the unpickled copy: {a[0]} {a[1] if a[0] == 'raises' else ''}, on a never-serialized twin: {b[0]} {b[1] if b[0] == 'raises' else ''}")
+                elif a[0] == "raises":
+                    ctx.count("op", "k_paths-raises-on-fresh-twin-too:" + a[1])
                 str(copy)
         except Exception as e:  # noqa
             import traceback
